@@ -822,9 +822,14 @@ func main() {
 
 	rng := vlib.NewRand(o.Seed)
 	thorough := o.Tier == "thorough"
+	// -budget multiplies the generated cases; capped at 4 so that the violation search of bin/check (budgets 4, 8, 12,
+	// each with its own seed) stays within minutes
+	if o.Budget > 4 {
+		o.Budget = 4
+	}
 	scale := 3 * o.Budget
 	if thorough {
-		scale *= 8
+		scale *= 5
 	}
 
 	// (1) exhaustive arrival orders x batchings of small multisets -------------------------------------------
@@ -832,7 +837,7 @@ func main() {
 	nMultisets := 14 * o.Budget
 	if thorough {
 		maxN = 4
-		nMultisets = 24 * o.Budget
+		nMultisets = 16 * o.Budget
 	}
 	exhaustive := 0
 	for ms := 0; ms < nMultisets; ms++ {
